@@ -10,6 +10,7 @@ pub mod c07;
 pub mod c09;
 pub mod c12;
 pub mod c13;
+pub mod c15;
 pub mod c16;
 
 pub fn lookup(id: &str) -> Option<&'static dyn Property> {
@@ -23,6 +24,7 @@ pub fn lookup(id: &str) -> Option<&'static dyn Property> {
         "C09" => Some(&c09::C09),
         "C12" => Some(&c12::C12),
         "C13" => Some(&c13::C13),
+        "C15" => Some(&c15::C15),
         "C16" => Some(&c16::C16),
         _ => None,
     }
